@@ -5,6 +5,7 @@ Property theorems only; helper lemmas live in `KrillModel/Ca/Lemmas*.lean`.
 import KrillModel.Ca.LemmasDomain
 import KrillModel.Ca.LemmasReach
 import KrillModel.Ca.LemmasRoll
+import KrillModel.Ca.LemmasKeySync
 namespace KM.Props.C04
 open KM KM.CaK KM.AMap KM.Generated.ApplyDomain
 
@@ -262,5 +263,67 @@ example :
       .updateRcvdCert 0 4 { res := [1, 2], na := 100 } 50 [], .keyrollInit [(0, 5)]]
     (get s.ca.classes 0).map (·.keys.variant) = some .rollPending ∧
     s.ca.process (.keyrollInit [(0, 6)]) = .ok [] := by decide
+
+/-! ## A roll always completes -/
+
+/-
+Full statement: from every reachable `Sys` state with a roll in progress in some class, and any
+interleaved operations, the schedule (sync with the parent, activate, sync with the parent)
+repeated at most 3 times leaves the class `Active` with one key, given the parent answers.
+
+Proved (`roll_completes_partial`): the statement for the class's key-state machine
+(`Ca/KeySync.lean`: `syncStep` = "pending requests → revocation confirmed, certificates received
+for every open request, else entitlements → requests created"; `activateStep`), for **every**
+well-formed key state with a roll in progress, every offer of the parent and every clock value –
+and two rounds suffice.  What is missing for the full statement: the projection of the
+`Sys`-level manager steps onto this machine is checked on traces by the `syskeys` driver, not
+proved; at the `Sys` level `KeyRollActivate` is refused as a whole while *any* class has a new
+key with open requests (certauth.rs:2101-2112), `activate_key` / `shrink_overclaiming` can fail
+for child certificates with request limits, and under the TA the answers need a proxy/signer
+exchange in between.
+-/
+
+/-- From every well-formed key state with a roll in progress (`RollPending`, `RollNew`,
+`RollOld`, any request flags, any certificates), two rounds of (sync, activate, sync) with an
+answering parent end in `Active` with a single key. -/
+theorem roll_completes_partial (ks : KeyState) (hwf : ks.wf = true) (hr : ks.rolling = true)
+    (o : Offer) (now : Int) : ∃ c, (ks.round o now).round o now = .active c := by
+  obtain ⟨h1, hwf1⟩ := abs_round hwf o now
+  obtain ⟨h2, _⟩ := abs_round hwf1 o now
+  have ha := aState_two_rounds (ks.abs o now) (abs_wf hwf o now) (by rw [abs_rolling]; exact hr)
+  rw [← h1, ← h2, abs_isActive] at ha
+  cases hk : (ks.round o now).round o now with
+  | active c => exact ⟨c, rfl⟩
+  | pending _ => rw [hk] at ha; simp [KeyState.variant] at ha
+  | rollPending _ _ => rw [hk] at ha; simp [KeyState.variant] at ha
+  | rollNew _ _ => rw [hk] at ha; simp [KeyState.variant] at ha
+  | rollOld _ _ => rw [hk] at ha; simp [KeyState.variant] at ha
+
+/-- Once `Active`, further rounds keep the class `Active` (the roll stays finished). -/
+theorem active_stays_active (c : CertKey) (o : Offer) (now : Int) :
+    ∃ c', (KeyState.active c).round o now = .active c' := by
+  have hwf : (KeyState.active c).wf = true := rfl
+  obtain ⟨h1, _⟩ := abs_round hwf o now
+  have : ((KeyState.active c).abs o now).round.isActive = true := by
+    generalize hgen : (c.abs o now) = ak
+    obtain ⟨r, w⟩ := ak
+    simp only [KeyState.abs, hgen]
+    cases r <;> cases w <;> decide
+  rw [← h1, abs_isActive] at this
+  cases hk : (KeyState.active c).round o now with
+  | active c' => exact ⟨c', rfl⟩
+  | pending _ => rw [hk] at this; simp [KeyState.variant] at this
+  | rollPending _ _ => rw [hk] at this; simp [KeyState.variant] at this
+  | rollNew _ _ => rw [hk] at this; simp [KeyState.variant] at this
+  | rollOld _ _ => rw [hk] at this; simp [KeyState.variant] at this
+
+/-- Non-vacuity: the longest path – a roll whose pending key has no request on file and whose
+current key has an outdated certificate. -/
+example :
+    let ks : KeyState := .rollPending ⟨2, false⟩ ⟨1, { res := [1, 2, 3], na := 1000 }, false⟩
+    let o : Offer := ⟨[1, 2], 2000⟩
+    ks.wf = true ∧ ks.rolling = true ∧
+    (ks.round o 0).variant = .rollNew ∧
+    ((ks.round o 0).round o 0) = .active ⟨2, o.cert, false⟩ := by decide
 
 end KM.Props.C04
